@@ -1062,6 +1062,16 @@ def _sharded_in_slab_suite(ctx: Ctx):
             numel *= x
         inp["batch"] = ctx.rng.choice([10 ** 9, 10 ** 9, numel * 8 + 1])
         c08._case_reshard(ctx, inp, suite="shards_in_slab")
+    # subdivision of a local shard along its sharding dim, the dim also spelled from the end (dim=-1, -2)
+    rng = ctx.rng
+    for _ in range(ctx.n(150, 1500)):
+        nd = rng.choice([1, 2, 2, 3])
+        offsets, sizes = c08._rand_box(rng, nd)
+        dim = rng.randrange(nd)
+        dtype = rng.choice(c08.DTYPES)
+        mx = rng.choice(c08._thresholds(rng, sizes, dim, c08.ELEM[dtype]))
+        c08._case_subdivide(ctx, {"kind": "subdivide", "offsets": offsets, "sizes": sizes, "dim": dim, "max": mx, "dtype": dtype,
+                                  "neg": rng.random() < 0.5}, "subdivide_negdim")
 
 
 def run(ctx: Ctx):
@@ -1135,6 +1145,13 @@ def run(ctx: Ctx):
 def replay(ctx: Ctx, rec):
     inp = rec["input"]
     suite = inp.get("suite")
+    if inp.get("kind") == "subdivide":
+        from props import c08
+        c08._setup()
+        c08._case_subdivide(ctx, inp, "replay")
+        for f in ctx.failures:
+            print("FAIL", f["sig"], f["what"], f["observed"])
+        return
     if rec.get("suite") == "shards_in_slab" or (suite is None and "batch" in inp):
         from props import c08
         c08._setup()
